@@ -476,7 +476,13 @@ def _analyse_plain(indict):
                                          "propagators": {k: str(v) for k, v in s.get("propagators", {}).items()},
                                          "initial_values": dict(s.get("initial_values", {}))} for s in res]}
     except BaseException as e:
-        return {"ok": False, "error": type(e).__name__, "msg": str(e)[:160]}
+        import traceback
+        site = None
+        for fr in traceback.extract_tb(e.__traceback__):
+            if "/odetoolbox/" in fr.filename.replace("\\", "/") and not fr.name.startswith("<") and not fr.name.startswith("_print") \
+                    and not fr.filename.endswith("sympy_helpers.py"):
+                site = fr.name
+        return {"ok": False, "error": type(e).__name__, "msg": str(e)[:160], "site": site}
 
 
 def case_twin(case):
@@ -487,7 +493,8 @@ def case_twin(case):
     from harness.core import numeval, refsol
     a = _analyse_plain(case["indict"])
     b = _analyse_plain(case["twin"])
-    out = {"a_ok": a["ok"], "b_ok": b["ok"], "a_err": a.get("error"), "b_err": b.get("error"), "a_msg": a.get("msg"), "b_msg": b.get("msg"), "problems": []}
+    out = {"a_ok": a["ok"], "b_ok": b["ok"], "a_err": a.get("error"), "b_err": b.get("error"), "a_msg": a.get("msg"), "b_msg": b.get("msg"),
+           "a_site": a.get("site"), "b_site": b.get("site"), "problems": []}
     if not (a["ok"] and b["ok"]):
         return out
     vm = case["varmap"]          # original state variable -> twin state variable
